@@ -901,10 +901,11 @@ func main() {
 	}
 	twoRealRoots(r, ls)
 	twoDifferentRoots(r, ls)
+	wideDirectories(r)
 	r.Set("bound", map[string]any{"max_nodes_completed": completedNodes, "max_option_deviations": maxDev, "extractor_sets": len(exSets)})
 	r.Assume("reference dispatch model (this file, ~200 lines) states git's .gitignore semantics for the 5-pattern alphabet and the skip rules of the property text")
 	r.Assume("regular-expression and glob *matching* are taken from the same libraries the implementation uses; only the dispatch logic is under test")
-	r.Finish(fmt.Sprintf("every tree with <=%d labelled nodes (names a, a.d, b.txt, 'd e', -x, .gitignore(5 bodies), pkg.json; dirs, files of size 0/1/5, exec bit, symlinks to file/dir/dangling, named pipe) x every option vector with <=%d deviations from the defaults (skip list, regex, glob, gitignore, requested paths incl. dir+file and '.', sub-dir cut-off, max size 1/5, symlinks, absolute paths, ReadDirFile on/off, virtual root vs. root with a host path and absolute skip/request paths) x %d extractor sets; Scanner.Scan over memfs vs reference dispatch model; non-trivial = some option active and >=1 extraction expected", maxNodes, maxDev, len(exSets)), completedNodes == maxNodes)
+	r.Finish(fmt.Sprintf("every tree with <=%d labelled nodes (names a, a.d, b.txt, 'd e', -x, .gitignore(5 bodies), pkg.json; dirs, files of size 0/1/5, exec bit, symlinks to file/dir/dangling, named pipe) x every option vector with <=%d deviations from the defaults (skip list, regex, glob, gitignore, requested paths incl. dir+file and '.', sub-dir cut-off, max size 1/5, symlinks, absolute paths, ReadDirFile on/off, virtual root vs. root with a host path and absolute skip/request paths) x %d extractor sets; Scanner.Scan over memfs vs reference dispatch model; plus one directory of W entries for every W<=%d and 2^k-1,2^k,2^k+1,1.5*2^k up to %d x 3 placements x 5 directory-listing behaviours (ReadDir, ReadDirFile full batches, short batches of 1/3/100); non-trivial = some option active and >=1 extraction expected", maxNodes, maxDev, len(exSets), ev.Pick(r, 40, 300), ev.Pick(r, 1024, 4096)), completedNodes == maxNodes)
 }
 
 func replay(r *ev.Run, p string) {
@@ -1075,5 +1076,117 @@ func twoRealRoots(r *ev.Run, ls []label) {
 				}
 			}
 		}
+	}
+}
+
+// wideDirectories: the tree enumeration above has directories of at most 6 entries. This phase
+// enumerates the *width* dimension on its own: one directory of W entries (every W up to a bound,
+// then every power of two and its neighbours up to 4096), at the root or nested, with a
+// sub-directory and a required file placed after the wide run, for each way the file system hands
+// out directory entries (one ReadDir(-1), a directory handle that serves full batches, one that
+// serves short batches of 1 / 3 / 100). Expected calls = the dispatch model.
+func wideDirectories(r *ev.Run) {
+	var widths []int
+	for w := 0; w <= ev.Pick(r, 40, 300); w++ {
+		widths = append(widths, w)
+	}
+	for p := 64; p <= ev.Pick(r, 1024, 4096); p *= 2 {
+		widths = append(widths, p-1, p, p+1, p+p/2)
+	}
+	type fsMode struct {
+		noRDF    bool
+		maxBatch int
+	}
+	modes := []fsMode{{true, 0}, {false, 0}, {false, 1}, {false, 3}, {false, 100}}
+	type cell struct {
+		w, shape int
+		m        fsMode
+	}
+	var cells []cell
+	for _, w := range widths {
+		for shape := 0; shape < 3; shape++ {
+			for _, m := range modes {
+				cells = append(cells, cell{w, shape, m})
+			}
+		}
+	}
+	done := r.ParallelFor(len(cells), func(i int) {
+		c := cells[i]
+		var wide []*memfs.Node
+		for k := 0; k < c.w; k++ {
+			wide = append(wide, memfs.F(fmt.Sprintf("f%05d.txt", k), "x"))
+		}
+		// entries that sort after the wide run: a sub-directory with a file, and a base-required file
+		tail := []*memfs.Node{memfs.D("zdir", memfs.F("pkg.json", "x")), memfs.F("zz-b.txt", "x")}
+		var root *memfs.Node
+		switch c.shape {
+		case 0: // wide run directly in the root
+			root = memfs.D("", append(wide, tail...)...)
+		case 1: // nested, a sibling after the wide directory
+			root = memfs.D("", memfs.D("a", append(wide, tail...)...), memfs.F("pkg.json", "x"))
+		case 2: // the wide run consists of directories (each with one file)
+			var ds []*memfs.Node
+			for k := 0; k < c.w; k++ {
+				ds = append(ds, memfs.D(fmt.Sprintf("d%05d", k), memfs.F("pkg.json", "x")))
+			}
+			root = memfs.D("", append(ds, tail...)...)
+		}
+		es := exSets[1]
+		m := &model{root: root, o: opts{}, exs: es, dc: map[string]bool{}}
+		m.run()
+		rec := &scankit.Rec{}
+		var exs []filesystem.Extractor
+		for _, e := range es {
+			exs = append(exs, &scankit.Ex{N: e.name, Rec: rec, Req: reqFn(e.req)})
+		}
+		mf := memfs.New(root)
+		mf.NoReadDirFile, mf.MaxBatch = c.m.noRDF, c.m.maxBatch
+		cfg := &scalibr.ScanConfig{FilesystemExtractors: exs, Capabilities: &plugin.Capabilities{}, ScanRoots: []*scalibrfs.ScanRoot{{FS: mf, Path: ""}}}
+		var res *scalibr.ScanResult
+		p, stack := ev.Recover(func() { res = scalibr.New().Scan(context.Background(), cfg) })
+		r.Evals.Add(1)
+		desc := map[string]any{"width": c.w, "shape": c.shape, "no_readdirfile": c.m.noRDF, "max_batch": c.m.maxBatch}
+		if p != nil {
+			r.Violation("wide-directory:panic", fmt.Sprintf("%v: panic %v at %s", desc, p, ev.PanicSite(stack)), desc)
+			return
+		}
+		want := multiset(m.calls)
+		got := map[string]int{}
+		for _, e := range rec.Of("extract") {
+			got[e.Ex+"|"+e.Path]++
+		}
+		var missing, extra []string
+		for k, n := range want {
+			if got[k] < n {
+				missing = append(missing, k)
+			}
+		}
+		for k, n := range got {
+			if want[k] < n {
+				extra = append(extra, k)
+			}
+		}
+		sort.Strings(missing)
+		sort.Strings(extra)
+		if c.w > 0 {
+			r.Nontrivial.Add(1)
+		}
+		if len(missing)+len(extra) > 0 || strings.HasPrefix(res.Status.String(), "FAILED") {
+			if len(missing) > 3 {
+				missing = append(missing[:3], fmt.Sprintf("... %d more", len(missing)-3))
+			}
+			if len(extra) > 3 {
+				extra = append(extra[:3], fmt.Sprintf("... %d more", len(extra)-3))
+			}
+			kind := "missing"
+			if len(missing) == 0 {
+				kind = "extra-or-failed"
+			}
+			r.Violation("wide-directory:"+kind, fmt.Sprintf("directory of %d entries (shape %d, ReadDirFile=%v, batch cap %d): never extracted %v, extracted too often %v, status %s", c.w, c.shape, !c.m.noRDF, c.m.maxBatch, missing, extra, res.Status), desc)
+		}
+	})
+	r.Set("wide_directory_cells", map[string]any{"cells": len(cells), "completed": done, "max_width": widths[len(widths)-1]})
+	if done < len(cells) {
+		r.Cap("wide-directory phase cut by the deadline")
 	}
 }
